@@ -3,7 +3,8 @@
 (* real Discovery / limitedSet / backoffConnector by harness/drivers/discovery.                             *)
 EXTENDS Discovery, Json
 
-CONSTANT MaxLen      \* length of a behaviour (run TLC with -simulate file=...: the last state of each trace file holds the behaviour)
+CONSTANTS MaxLen,    \* length of a behaviour (run TLC with -simulate file=...: the last state of each trace file holds the behaviour)
+          Wanted     \* the coverage goals of this configuration (see GoalCover)
 
 VARIABLE hist        \* sequence of [a: action record, o: observable state after it, stable: BOOLEAN]
 
@@ -34,4 +35,35 @@ NextB == /\ Next
          /\ hist' = Append(hist, [a |-> act', o |-> Obs', stable |-> Stable'])
 SpecB == InitB /\ [][NextB]_<<vars, hist>>
 
+-----------------------------------------------------------------------------
+(* Coverage goals: decision branches that random behaviours reach rarely. Goals_*.cfg list GoalCover as an      *)
+(* invariant (one worker, breadth first): the first behaviour that reaches a goal is printed, and TLC stops once  *)
+(* every goal has been reached (AllGoals is "violated"). The printed behaviours are replayed like the others.    *)
+GoalNames == <<"full", "refused", "redial", "inset", "self", "dialfail", "noop", "absent", "wake2", "cancelpark",
+               "cancel", "refill", "connected", "overshootround">>
+Goal(g) ==
+  CASE g = "full"       -> act.a = "WSize" /\ act.full                    \* a worker finds the set at its limit
+    [] g = "refused"    -> act.a = "WHasBackoff" /\ act.refused           \* Connect refuses a peer in back-off
+    [] g = "redial"     -> act.a = "WHasBackoff" /\ ~act.refused /\ act.rec \* ... and dials it once the back-off has elapsed
+    [] g = "inset"      -> act.a = "WAdd" /\ ~act.added                   \* Add of a member
+    [] g = "self"       -> act.a = "WStart" /\ act.p = Self               \* the backend returns the node itself
+    [] g = "dialfail"   -> act.a = "WBackoffDial" /\ ~act.ok              \* a failed dial is backed off, the peer not added
+    [] g = "noop"       -> act.a = "LoopDiscover" /\ ~act.open            \* a tick with a full set
+    [] g = "absent"     -> act.a = "DContains" /\ ~act.found              \* a disconnect of a non-member
+    [] g = "wake2"      -> act.a = "WWake" /\ Cardinality({c \in Callers : cl[c].pc = "ret" /\ cl[c].res = {act.p}}) >= 2
+    [] g = "cancelpark" -> act.a = "CPark" /\ cl[act.c].pc = "ret"        \* cancelled before the select
+    [] g = "cancel"     -> act.a = "CCancel" /\ cl[act.c].pc = "ret"      \* cancelled while blocked
+    [] g = "refill"     -> act.a = "WFin" /\ bud.drops >= 1 /\ bud.rounds >= 2 /\ Size = Limit /\ Quiescent
+                                                                          \* the set is full again after a removal
+    [] g = "connected"  -> act.a = "WProtect" /\ bud.inbound >= 1 /\ bud.fails = 0 /\ ~(\E w \in Workers : wk[w].ok)
+                                                                          \* a peer found connected is added without a dial
+    [] g = "overshootround" -> act.a = "WSize" /\ act.full /\ Size > Limit \* a worker of a round started above the limit
+NGoals == Len(GoalNames)
+ASSUME \A i \in 1..NGoals : TLCSet(i, FALSE)
+GoalCover ==
+  /\ \A i \in 1..NGoals :
+       (GoalNames[i] \in Wanted /\ ~TLCGet(i) /\ Goal(GoalNames[i])) =>
+           /\ TLCSet(i, TRUE)
+           /\ PrintT(<<"GOAL", ToJson([g |-> GoalNames[i], hist |-> hist])>>)
+  /\ \E i \in 1..NGoals : GoalNames[i] \in Wanted /\ ~TLCGet(i)
 =============================================================================
